@@ -82,6 +82,7 @@ type genState struct {
 	nftOwner map[uint64]int
 	nftAddr  string
 	jailed   map[int]bool
+	gone       map[int]bool // validators that withdrew their whole stake
 	bigTenants []uint64
 	followUps []Event // emitted right after the next begin-block: the actions that would profit from a shadow write
 }
@@ -111,7 +112,7 @@ var ownerPool = []string{
 
 func GenHistory(seed uint64, idx int, p Profile) History {
 	r := NewRng(seed*1000003 + uint64(idx))
-	g := &genState{r: r, p: p, commits: map[int]*Msg{}, former: map[int]int{}, feeders: map[int]int{}, nftOwner: map[uint64]int{}, jailed: map[int]bool{}}
+	g := &genState{r: r, p: p, commits: map[int]*Msg{}, former: map[int]int{}, feeders: map[int]int{}, nftOwner: map[uint64]int{}, jailed: map[int]bool{}, gone: map[int]bool{}}
 	nv := 3 + r.Intn(3)
 	if p.Probono && r.Chance(30) {
 		nv = 6 + r.Intn(2) // the chain runs with constant power 1 per validator: shares of 1/6 need six of them
@@ -142,6 +143,9 @@ func GenHistory(seed uint64, idx int, p Profile) History {
 	gen.Threshold = []string{"0.5", "0.5", "0.6", "0.666666666666666667", "1", "0.75"}[r.Intn(6)]
 	gen.SlashFrac = []string{"0.01", "0.5", "0.000001", "1"}[r.Intn(4)]
 	gen.Chains = [][]string{{"1"}, {"1", "137"}, {"1"}}[r.Intn(3)]
+	// gen.FastUnbond stays false: with an unbonding time of a nanosecond an emptied validator is REMOVED inside the
+	// staking end-block, which moves its outstanding rewards (distribution hook) in the same ABCI call the oracle's
+	// accounting is observed in - the books of the oracle could no longer be told apart from staking's
 	g.h.Genesis = gen
 	for i := nv; i < nv+4; i++ {
 		g.users = append(g.users, i)
@@ -702,8 +706,31 @@ func (g *genState) block() {
 			g.nftOwner[tok] = to
 		}
 	}
+	if g.p.Jail && r.Chance(5) {
+		// a validator takes its stake back: all of it (it leaves the bonded set and is removed from staking once the
+		// unbonding has matured) or a part
+		v := r.Intn(g.nVals)
+		active := 0
+		for i := 0; i < g.nVals; i++ {
+			if !g.jailed[i] && !g.gone[i] {
+				active++
+			}
+		}
+		if !g.gone[v] && active > 3 {
+			if r.Chance(60) {
+				envs = append(envs, Env{Kind: "undelegate", Val: v, Amount: "0"}) // 0 = everything
+				g.gone[v] = true
+				g.jailed[v] = true
+			} else {
+				envs = append(envs, Env{Kind: "undelegate", Val: v, Amount: "1000000"})
+			}
+		}
+	}
 	if g.p.Jail && r.Chance(8) {
 		v := r.Intn(g.nVals)
+		if g.gone[v] {
+			v = (v + 1) % g.nVals
+		}
 		nj := 0
 		for _, j := range g.jailed {
 			if j {
